@@ -224,6 +224,38 @@ pub struct Cell
 
 pub const CONTEXTS: [&str; 7] = ["straight-line code", "then branch", "else branch", "then branch of an else-if", "nested block", "looping block", "after a label"];
 
+/// Unrelated, valid declarations placed in front of or behind the program of a cell (contexts
+/// 100 + 2 * bystander + position): the verdict of the cell must not depend on them.
+pub const BYSTANDERS: [(&str, &str); 8] = [
+	("function writing through a pointer parameter", "fn by0(p: &i32)\n{\n\tp = 1;\n}\n"),
+	("function with bitwise operators and a comparison", "fn by1(a: u8, b: u8) -> u8\n{\n\tvar c: u8 = a & b;\n\tif c == 0u8\n\t{\n\t\tc = 1;\n\t}\n\treturn: c\n}\n"),
+	("function with casts", "fn by2(a: i64) -> u8\n{\n\tvar b: i32 = a as i32;\n\treturn: b as u8\n}\n"),
+	("function passing an array literal as a view", "fn by3h(v: []i16) -> usize\n{\n\treturn: |v|\n}\nfn by3() -> usize\n{\n\tvar n: usize = by3h([1, 2, 3]);\n\treturn: n\n}\n"),
+	("structure with a literal and a member access", "struct By4\n{\n\ta: u16,\n\tb: bool,\n}\nfn by4() -> u16\n{\n\tvar s: By4 = By4 { a: 1, b: true };\n\treturn: s.a\n}\n"),
+	("function comparing characters", "fn by5(c: char8) -> u8\n{\n\tvar r: u8 = 0;\n\tif c == 'a'\n\t{\n\t\tr = 1;\n\t}\n\treturn: r\n}\n"),
+	("function ending in a loop with a conditional goto", "fn by6(n: usize)\n{\n\tvar i: usize = 0;\n\t{\n\t\tif i == n\n\t\t\tgoto done;\n\t\ti = i + 1;\n\t\tloop;\n\t}\n\tdone:\n}\n"),
+	("constant with a cast and a size-of", "const BY7: u8 = |:i64| as u8;\n"),
+];
+
+fn context_name(context: usize) -> String
+{
+	if context >= 100
+	{
+		let b = (context - 100) / 2;
+		format!("{} {}", if (context - 100) % 2 == 0 { "behind a" } else { "in front of a" }, BYSTANDERS[b].0)
+	}
+	else
+	{
+		format!("in a {}", CONTEXTS[context])
+	}
+}
+
+fn with_bystander(text: &str, context: usize) -> String
+{
+	let b = (context - 100) / 2;
+	if (context - 100) % 2 == 0 { format!("{}{text}", BYSTANDERS[b].1) } else { format!("{text}{}", BYSTANDERS[b].1) }
+}
+
 thread_local! {
 	/// The statement context in which `function` places the statements of a cell.
 	static CONTEXT: std::cell::Cell<usize> = std::cell::Cell::new(0);
@@ -253,6 +285,15 @@ fn function(body: &str) -> String
 /// The cells of a family with their statements placed in the given statement context.
 pub fn cells_in(family: &str, context: usize) -> Vec<Cell>
 {
+	if context >= 100
+	{
+		let mut out = cells(family);
+		for c in &mut out
+		{
+			c.text = with_bystander(&c.text, context);
+		}
+		return out;
+	}
 	CONTEXT.with(|c| c.set(context));
 	let out = cells(family);
 	CONTEXT.with(|c| c.set(0));
@@ -437,11 +478,52 @@ pub fn cells(family: &str) -> Vec<Cell>
 				out.push(Cell { family: "access", what: format!("{n}.m"), text: function(&format!("\tvar r: i32 = {e}.m;\n")), expect: Some(is_structural), codes: vec![505, 406] });
 			}
 		}
+		"nested call argument" =>
+		{
+			// the ill-typed call h(e) stands inside another expression: nothing that wraps a call
+			// (a coercion of the enclosing argument, a literal, a cast, an index) may hide it from the
+			// argument check
+			for (form, template) in NESTED_FORMS
+			{
+				for target in PRIMS
+				{
+					for (n, e, t) in &ops
+					{
+						let same = *t == T::Prim(target);
+						let call = format!("h({e})");
+						let stmt = template.replace("CALL", &call);
+						let text = format!(
+							"{PRELUDE}struct Pair\n{{\n\ta: i32,\n\tb: i32,\n}}\nfn h(x: {target}) -> i32\n{{\n\treturn: 1\n}}\nfn hu(x: i32) -> usize\n{{\n\treturn: 1\n}}\nfn first(v: []i32) -> i32\n{{\n\treturn: v[0]\n}}\nfn sum(q: Pair) -> i32\n{{\n\treturn: q.a\n}}\nfn k(x: i32) -> i32\n{{\n\treturn: x\n}}\nfn f() -> i32\n{{\n{}\tvar rows: [2][3]i32 = [[1, 2, 3], [4, 5, 6]];\n{stmt}\treturn: 0\n}}\n",
+							locals()
+						);
+						out.push(Cell { family: "nested call argument", what: format!("{target} <- {n} [{form}]"), text, expect: Some(same), codes: vec![512, 513, 500, 504, 503] });
+					}
+				}
+			}
+		}
 		"compound initialisation" | "compound argument" | "compound struct member" | "compound array element" | "compound return" | "compound assignment" => compound_cells(leak(family), &mut out),
 		_ => panic!("unknown family {family}"),
 	}
 	out
 }
+
+/// (name, statement with CALL standing for the judged call `h(e)` of type i32)
+pub const NESTED_FORMS: [(&str, &str); 14] = [
+	("inside an array literal passed as a view", "\tvar r: i32 = first([CALL]);\n"),
+	("inside an array literal passed as a view, second element", "\tvar r: i32 = first([1, CALL]);\n"),
+	("inside a structure literal passed as an argument", "\tvar r: i32 = sum(Pair { a: CALL, b: 1 });\n"),
+	("inside the index of a row passed as a view", "\tvar r: i32 = first(rows[hu(CALL)]);\n"),
+	("inside an array literal that initialises a variable", "\tvar r: [2]i32 = [CALL, 2];\n"),
+	("inside a structure literal that initialises a variable", "\tvar r: Pair = Pair { a: 1, b: CALL };\n"),
+	("inside the argument of another call", "\tvar r: i32 = k(CALL);\n"),
+	("inside a cast", "\tvar r: i64 = CALL as i64;\n"),
+	("inside a comparison", "\tif CALL == 1i32\n\t{\n\t}\n"),
+	("inside a parenthesised operand", "\tvar r: i32 = (CALL + 1i32) * 2i32;\n"),
+	("inside the index of an assignment target", "\tarr[hu(CALL)] = 1;\n"),
+	("as the value assigned to an element", "\tarr[0] = CALL;\n"),
+	("inside a negation", "\tvar r: i32 = -CALL;\n"),
+	("as a statement of its own", "\tCALL;\n"),
+];
 
 /// A compound type: pointer depth, array dimensions (None = view `[]`), base name. `int?` is the
 /// base of an array literal whose elements are naked integer literals.
@@ -652,7 +734,7 @@ fn leak(s: &str) -> &'static str
 	FAMILIES.iter().find(|f| **f == s).copied().unwrap_or("?")
 }
 
-pub const FAMILIES: [&str; 28] = [
+pub const FAMILIES: [&str; 29] = [
 	"binary",
 	"comparison",
 	"unary",
@@ -675,6 +757,7 @@ pub const FAMILIES: [&str; 28] = [
 	"index in return value",
 	"call arity",
 	"access",
+	"nested call argument",
 	"compound initialisation",
 	"compound argument",
 	"compound struct member",
@@ -721,6 +804,21 @@ pub fn drive(d: &mut Driver)
 		}
 	}
 	d.phase("type matrix inside statement contexts", jobs);
+	d.bound("bystander declarations (in front of and behind the program of every cell)", json!(BYSTANDERS.iter().map(|b| b.0).collect::<Vec<_>>()));
+	let mut jobs = Vec::new();
+	for f in FAMILIES
+	{
+		let n = cells(f).len();
+		let mut lo = 0;
+		while lo < n
+		{
+			let hi = (lo + 40).min(n);
+			jobs.push(json!({"family": f, "lo": lo, "hi": hi, "bystanders": true}));
+			lo = hi;
+		}
+	}
+	d.phase("type matrix next to bystander declarations", jobs);
+	d.assume("next to a bystander declaration the verdict of a cell (accepted or rejected, and the sorted list of codes) must be the verdict of the cell alone; what that verdict should be is judged on the cell alone");
 	let files: Vec<String> = crate::util::corpus_files().into_iter().filter(|f| f.contains("/valid/") || f.contains("/examples/")).collect();
 	d.bound("corpus files for the resolved-tree monitor", json!(files.len()));
 	let jobs: Vec<Value> = files.chunks(8).map(|c| json!({"corpus": c})).collect();
@@ -741,6 +839,11 @@ pub fn work(spec: &Value, w: &mut WorkerCtx)
 		let family = case["family"].as_str().unwrap().to_string();
 		let index = case["index"].as_u64().unwrap() as usize;
 		let context = case["context"].as_u64().unwrap_or(0) as usize;
+		if context >= 100
+		{
+			judge_bystanders(&cells(&family)[index], index, w);
+			return;
+		}
 		let cs = cells_in(&family, context);
 		judge(&cs[index], index, context, w);
 		return;
@@ -755,6 +858,15 @@ pub fn work(spec: &Value, w: &mut WorkerCtx)
 		return;
 	}
 	let family = spec["family"].as_str().unwrap();
+	if spec.get("bystanders").is_some()
+	{
+		let cs = cells(family);
+		for i in spec["lo"].as_u64().unwrap() as usize..spec["hi"].as_u64().unwrap() as usize
+		{
+			judge_bystanders(&cs[i], i, w);
+		}
+		return;
+	}
 	let context = spec["context"].as_u64().unwrap_or(0) as usize;
 	let cs = cells_in(family, context);
 	let plain = if context > 0 { cells(family) } else { Vec::new() };
@@ -767,6 +879,61 @@ pub fn work(spec: &Value, w: &mut WorkerCtx)
 		}
 		w.result.transitions += 1;
 		judge(&cs[i], i, context, w);
+	}
+}
+
+/// The verdict of a cell next to every bystander declaration against the verdict of the cell alone.
+fn judge_bystanders(cell: &Cell, index: usize, w: &mut WorkerCtx)
+{
+	let verdict_of = |text: &str| {
+		let (v, _) = alpha::alpha_pipeline_resolved(&[("m.pn".to_string(), text.to_string())], alpha::ANALYZE_ONLY);
+		let mut codes = v.codes();
+		codes.sort();
+		(v.accepted(), codes)
+	};
+	let mut plain: Option<(bool, Vec<u16>)> = None;
+	for context in 100..100 + 2 * BYSTANDERS.len()
+	{
+		w.result.states += 1;
+		w.result.transitions += 1;
+		let text = with_bystander(&cell.text, context);
+		let desc = || json!({"family": cell.family, "index": index, "context": context, "cell": cell.what, "text": text, "sig_hint": cell.family, "size": text.len()});
+		let d = desc().to_string().into_bytes();
+		let plain_text = cell.text.clone();
+		let need_plain = plain.is_none();
+		let t2 = text.clone();
+		let outcome = w.run_case(&d, || (if need_plain { Some(verdict_of(&plain_text)) } else { None }, verdict_of(&t2)));
+		match outcome
+		{
+			CaseOutcome::Done((p, with)) =>
+			{
+				if let Some(p) = p
+				{
+					plain = Some(p);
+				}
+				w.result.validated += 1;
+				let alone = plain.as_ref().unwrap();
+				if *alone != with
+				{
+					w.result.outcome("bystander:verdict changed:MISMATCH");
+					w.result.violation(&format!("verdict-changed-by-unrelated-declaration:{}:{}", cell.family, context_name(context)), text.len() as u64, &desc, || {
+						format!("cell `{}` alone: accepted={} codes {:?}; {}: accepted={} codes {:?}\n{}", cell.what, alone.0, alone.1, context_name(context), with.0, with.1, text)
+					});
+				}
+				else
+				{
+					w.result.outcome("bystander:verdict unchanged");
+				}
+			}
+			CaseOutcome::Panicked { site, message } =>
+			{
+				w.result.outcome("panicked");
+				let sig = format!("panic@{}", crate::util::site_signature(&site, &message));
+				w.result.violation(&sig, text.len() as u64, &desc, || format!("panic at {site}: {message}\n{text}"));
+			}
+			CaseOutcome::Crashed { .. } =>
+			{}
+		}
 	}
 }
 
@@ -806,13 +973,13 @@ fn judge(cell: &Cell, index: usize, context: usize, w: &mut WorkerCtx)
 				(Verdict::Ok { .. }, Some(false)) =>
 				{
 					ok = false;
-					w.result.violation(&format!("ill-typed-accepted:{}:{}{}", cell.family, operand_class(&cell.what), if context > 0 { format!(":in a {}", CONTEXTS[context]) } else { String::new() }), size, &desc, || format!("ill-typed cell `{}` is accepted\n{}", cell.what, cell.text));
+					w.result.violation(&format!("ill-typed-accepted:{}:{}{}", cell.family, operand_class(&cell.what), if context > 0 { format!(":{}", context_name(context)) } else { String::new() }), size, &desc, || format!("ill-typed cell `{}` is accepted\n{}", cell.what, cell.text));
 				}
 				(Verdict::Rejected { diags, .. }, Some(true)) =>
 				{
 					ok = false;
 					let codes: Vec<u16> = diags.iter().map(|d| d.code).collect();
-					w.result.violation(&format!("well-typed-rejected:{}:E{}:{}{}", cell.family, codes.first().copied().unwrap_or(0), class_of(&cell.what), if context > 0 { format!(":in a {}", CONTEXTS[context]) } else { String::new() }), size, &desc, || {
+					w.result.violation(&format!("well-typed-rejected:{}:E{}:{}{}", cell.family, codes.first().copied().unwrap_or(0), class_of(&cell.what), if context > 0 { format!(":{}", context_name(context)) } else { String::new() }), size, &desc, || {
 						format!("well-typed cell `{}` is rejected with {codes:?}\n{}", cell.what, cell.text)
 					});
 				}
